@@ -73,6 +73,7 @@ CONSTANTS
   Ev1Set = {{}}
   Ev2Set = {{}}
   MaxSilent = {max_silent}
+VIEW tview
 CONSTRAINT Furthest
 POSTCONDITION Post
 CHECK_DEADLOCK FALSE
@@ -218,8 +219,10 @@ def plan(tier):
             "emit": [("single", dict(max_events=1, wfc=0)),
                      ("media", dict(max_events=1, wfc=0, traffic=True, phases=["mediaFlowing"])),
                      ("pairs", dict(max_events=2, wfc=0, phases=["channelsOpen"],
-                                    ev1=["Close", "PeerCloseNotify", "PeerSctpAbort", "IceStop", "BlockedSender"],
+                                    ev1=["Close", "PeerCloseNotify", "PeerSctpAbort", "IceStop"],
                                     ev2=["Close"])),
+                     ("sender", dict(max_events=2, wfc=0, phases=["channelsOpen"], ev1=["BlockedSender"],
+                                     ev2=["Close"])),
                      ("rtp", dict(max_events=1, wfc=0, mode="Rtp", dc=False, phases=["offerMade", "channelsOpen"],
                                   ev1=["Close", "Drop", "IceStop"])),
                      ("srtp", dict(max_events=1, wfc=0, mode="Srtp", dc=False, phases=["channelsOpen"],
@@ -279,7 +282,7 @@ def run(tier):
     with ThreadPoolExecutor(max_workers=4) as ex:
         emitted_rows = list(ex.map(lambda lk: emit_scenarios(ck, lk[0], **lk[1]), pl["emit"]))
     for (label, kw), (rows, _res) in zip(pl["emit"], emitted_rows):
-        if label in ("pairs", "mediapairs"):
+        if label in ("pairs", "mediapairs", "sender"):
             rows = [r for r in rows if len(r["evs"]) == 2]
         hs = to_harness(rows, nid, pl["attempts"])
         nid += len(hs)
